@@ -60,6 +60,11 @@ claim('C07', 'devx',
       'Only messages the generator labels conformant are judged. AuthnRequest: all pairs (quick) / all triples (thorough) of values of 28 dimensions (prefix style, indentation, XML declaration, quote character, attribute order, optional parts, 0/3/6/9 fractional digits, RelayState incl. spaces and reserved characters, ProtocolBinding, Destination present/absent, Conditions, ACS index, Redirect/POST, signing none/rsa-sha1/rsa-sha256, KeyInfo, certificate text wrapped at 64/76, two independent signer implementations, upper/lower-case percent-encoding, + vs %20, parameter order, SAMLEncoding, SP/IdP signing flags in all xs:boolean spellings, issuer and endpoint configuration, ACS metadata shapes, Host) plus the full product of the 11-dimensional encoding/signing sub-space; LogoutRequest: k<=3 over 12 dims incl. all advertised bindings; AttributeQuery: k<=3 over 12 dims incl. signed queries. Oracle: positive outcome of the matching kind.',
       'Conformance is the generator notion (SAML core/bindings as cited in DESIGN.md); quirks of particular SP products are outside.', '§5 C07')
 
+claim('C04', 'devx',
+      'exhaustive enumeration of (field, symbol) placements x algorithms x bindings executed on the real handlers; emitted bytes judged by two independent XML-DSig verifiers and a spec-literal redirect verifier',
+      'Every symbol of a 16-string alphabet (& < > " \' CR LF CRLF TAB, blanks, 2/3/4-byte UTF-8, URL metacharacters, ]]>, entity look-alikes) in each of 14 callback fields, the user fields of attribute-query responses and 9 metadata fields, singly (quick) and in all pairs (thorough), x {rsa-sha1, rsa-sha256} x {POST, Redirect} x stored consumer URL {registered, with query, empty} x metadata signing {off, sha1, sha256}; plus records persisted by the SSO endpoint itself followed through the callback. The bytes as sent are verified against the certificate published in the metadata (cross-checked with the certificate endpoint) by goxmldsig and by an own exclusive-C14N verifier - a signature fails only if both reject - or by a literal implementation of the HTTP-Redirect signature procedure over the Location actually sent; every Success reply must carry a verifying signature.',
+      'Known findings (one root cause in the third-party canonicaliser, keyed by position kind and metacharacter) are listed in known_findings.json; strings outside the alphabet are not explored.', '§5 C04')
+
 NOT_YET = {i: 'check not built yet in this revision (planned: see DESIGN.md §5 %s); not claimed until its machinery exists' % i for i in ids}
 
 def main():
